@@ -44,6 +44,10 @@ for d in sorted((V / "seeded").iterdir()):
             parts.append(f"{k}: correspondence broken, no-failing-input-found")
         else:
             parts.append(f"{k}: failing input")
+    for k, r in (c.get("second_evaluation") or {}).items():
+        lines = [l for l in r["lines"] if l.startswith("VIOLATION")]
+        weak = lines and all("no-failing-input-found" in l for l in lines)
+        parts.append(f"after strengthening {k}: " + ("correspondence broken, no-failing-input-found" if weak else ("failing input" if lines else "not caught")))
     print(f"| `{d.name}` | {meta.get('property')} | {'; '.join(parts)} | {meta.get('summary', '')[:160].replace('|', '/')}… |")
 
 ctx.__exit__(None, None, None)
